@@ -1,8 +1,13 @@
-//! C09: InsertionCost cmp/add/sub, Goal::total_order/fitness, dominance_order on the real code.
+//! C09: the whole public surface of InsertionCost (cmp / eq / ne / partial_cmp / lt / le / gt / ge / + / - by value and by reference /
+//! iter / from_iter / into_iter / Index / max_value / Default), InsertionResult::choose_best_result and the provided
+//! ResultSelector::select_cost, Goal::total_order / fitness / estimate, GoalContext (builder, alternatives, estimate),
+//! dominance_order on the real code.
 use vh::util::*;
 use serde_json::{json, Value};
 use std::sync::Arc;
-use vrp_core::construction::heuristics::InsertionCost;
+use vrp_core::construction::heuristics::{BestResultSelector, InsertionCost, InsertionResult, InsertionSuccess, MoveContext as MC, ResultSelector};
+use vrp_core::models::problem::JobIdDimension;
+use vrp_core::models::ViolationCode;
 use vrp_core::models::{Goal, GoalBuilder};
 use vrp_core::prelude::*;
 use vrp_core::rosomaxa::evolution::objectives::dominance_order;
@@ -11,14 +16,20 @@ use vrp_core::rosomaxa::prelude::HeuristicObjective;
 use vrp_core::rosomaxa::utils::RandomGen;
 
 struct VerifFitnessKey;
+struct VerifEstimateKey;
 
 struct IdxObjective(usize);
 impl FeatureObjective for IdxObjective {
     fn fitness(&self, solution: &InsertionContext) -> Cost {
         solution.solution.state.get_value::<VerifFitnessKey, Vec<Float>>().map(|v| v[self.0]).unwrap_or(0.)
     }
-    fn estimate(&self, _: &MoveContext<'_>) -> Cost {
-        0.
+    fn estimate(&self, m: &MoveContext<'_>) -> Cost {
+        // the estimate of the i-th objective is scripted by the state of the solution the move refers to
+        let solution_ctx = match m {
+            MC::Route { solution_ctx, .. } => solution_ctx,
+            MC::Activity { solution_ctx, .. } => solution_ctx,
+        };
+        solution_ctx.state.get_value::<VerifEstimateKey, Vec<Float>>().and_then(|v| v.get(self.0).copied()).unwrap_or(0.)
     }
 }
 
@@ -36,7 +47,8 @@ fn make_problem() -> Arc<Problem> {
     let transport: Arc<dyn TransportCost> = Arc::new(SimpleTransportCost::new(vec![0.; 4], vec![0.; 4]).unwrap());
     let feature = FeatureBuilder::default().with_name("f0").with_objective(IdxObjective(0)).build().unwrap();
     let goal = GoalContextBuilder::with_features(&[feature]).unwrap().build().unwrap();
-    let job = SingleBuilder::default().id("j").location(1).unwrap().build_as_job().unwrap();
+    let jobs: Vec<_> =
+        (0..8).map(|i| SingleBuilder::default().id(&format!("j{}", i)).location(1).unwrap().build_as_job().unwrap()).collect();
     let vehicle = VehicleBuilder::default()
         .id("v")
         .add_detail(VehicleDetailBuilder::default().set_start_location(0).build().unwrap())
@@ -45,7 +57,7 @@ fn make_problem() -> Arc<Problem> {
         .unwrap();
     Arc::new(
         ProblemBuilder::default()
-            .add_job(job)
+            .add_jobs(jobs.into_iter())
             .add_vehicle(vehicle)
             .with_goal(goal)
             .with_transport_cost(transport)
@@ -128,9 +140,9 @@ fn err_code(msg: &str) -> i64 {
     table.iter().find(|(m, _)| msg.contains(m)).map(|(_, c)| *c).unwrap_or(99)
 }
 
-/// goal specification {"via": 0|1, "layers": [[kind, [idx..]], ..]}:
+/// goal specification {"via": 0|1, "layers": [[kind, [idx..], [weight bits..]?], ..]}:
 /// via 0 = Goal::subset_of(features, names f<first idx>), via 1 = GoalBuilder (kind 0 add_single, kind 1 add_multi with the
-/// comparator goal_reader.rs installs)
+/// comparator and estimate goal_reader.rs installs for strategy `sum`, kind 2 those of `weighted-sum` with the given weights)
 fn goal_of(features: &[Feature], spec: &Value) -> GenericResult<Goal> {
     let layers = spec["layers"].as_array().unwrap();
     if i64_of(&spec["via"]) == 0 {
@@ -145,11 +157,20 @@ fn goal_of(features: &[Feature], spec: &Value) -> GenericResult<Goal> {
         } else {
             let os: Vec<Arc<dyn FeatureObjective>> =
                 idxs.iter().map(|&k| Arc::new(IdxObjective(k as usize)) as Arc<dyn FeatureObjective>).collect();
-            b = b.add_multi(
-                &os,
-                |os, a, b| dominance_order(a, b, os.iter().map(|o| |a, b| o.fitness(a).total_cmp(&o.fitness(b)))),
-                |os, m| os.iter().map(|o| o.estimate(m)).sum(),
-            );
+            if i64_of(&l[0]) == 1 {
+                b = b.add_multi(
+                    &os,
+                    |os, a, b| dominance_order(a, b, os.iter().map(|o| |a, b| o.fitness(a).total_cmp(&o.fitness(b)))),
+                    |os, m| os.iter().map(|o| o.estimate(m)).sum(),
+                );
+            } else {
+                let weights = f64s_of(&l[2]);
+                b = b.add_multi(
+                    &os,
+                    |os, a, b| dominance_order(a, b, os.iter().map(|o| |a, b| o.fitness(a).total_cmp(&o.fitness(b)))),
+                    move |os, m| os.iter().enumerate().map(|(idx, o)| o.estimate(m) * weights[idx]).sum(),
+                );
+            }
         }
     }
     b.build()
@@ -191,6 +212,61 @@ fn observe(gc: &GoalContext, a: &InsertionContext, b: &InsertionContext) -> Vec<
     ]
 }
 
+/// NaN results of an arithmetic operation are reported as the one pattern 0x7FF8000000000000 (sign / payload of a produced NaN
+/// depend on the operand order and on constant folding; no statement is about them)
+fn cbits(x: f64) -> Value {
+    if x.is_nan() { Value::String(0x7FF8000000000000u64.to_string()) } else { bits_of(x) }
+}
+fn cvec(c: &InsertionCost) -> Vec<Value> {
+    c.iter().map(cbits).collect()
+}
+fn b2i(x: bool) -> i64 {
+    x as i64
+}
+
+/// an insertion result from [kind, tag | code, cost bits]: kind 1 = success whose job is j<tag>, kind 0 = failure with the code
+fn ires_of(p: &Arc<Problem>, v: &Value) -> InsertionResult {
+    if i64_of(&v[0]) == 1 {
+        let id = format!("j{}", i64_of(&v[1]));
+        let job = p.jobs.all().iter().find(|j| j.dimens().get_job_id().is_some_and(|x| *x == id)).cloned().expect("job");
+        let actor = p.fleet.actors.first().cloned().expect("actor");
+        InsertionResult::Success(InsertionSuccess { cost: InsertionCost::new(&f64s_of(&v[2])), job, activities: vec![], actor })
+    } else {
+        InsertionResult::make_failure_with_code(ViolationCode(i64_of(&v[1]) as i32), false, None)
+    }
+}
+fn ires_z(r: &InsertionResult) -> Vec<Value> {
+    match r {
+        InsertionResult::Success(s) => {
+            let tag: i64 = s.job.dimens().get_job_id().unwrap()[1..].parse().unwrap();
+            let mut out = vec![json!(1), json!(tag)];
+            out.extend(s.cost.iter().map(bits_of));
+            out
+        }
+        InsertionResult::Failure(f) => vec![json!(0), json!(f.constraint.0)],
+    }
+}
+
+/// the estimate of a goal context for a route move of a solution whose state scripts the estimates: [1, bits..] or [-2] (panic)
+fn estimate_row(gc: &GoalContext, p: &Arc<Problem>, est: &[Float]) -> Value {
+    let mut ctx = InsertionContext::new_empty(p.clone(), Arc::new(Environment::default()));
+    ctx.solution.state.set_value::<VerifEstimateKey, Vec<Float>>(est.to_vec());
+    let route_ctx = ctx.solution.registry.next_route().next().expect("route").deep_copy();
+    let job = p.jobs.all()[0].clone();
+    let res = std::panic::catch_unwind(std::panic::AssertUnwindSafe(|| {
+        let m = MC::route(&ctx.solution, &route_ctx, &job);
+        gc.estimate(&m).iter().map(cbits).collect::<Vec<_>>()
+    }));
+    match res {
+        Ok(v) => {
+            let mut out = vec![json!(1)];
+            out.extend(v);
+            Value::Array(out)
+        }
+        Err(_) => json!([-2]),
+    }
+}
+
 pub fn run_case(case: &Value) -> Value {
     let op = case["op"].as_str().unwrap();
     match op {
@@ -209,8 +285,33 @@ pub fn run_case(case: &Value) -> Value {
             // the by-value operators must agree with the by-reference ones
             let owned_same = (ca.clone() + &cb).cmp(&(&ca + &cb)) == std::cmp::Ordering::Equal
                 && (ca.clone() - &cb).cmp(&(&ca - &cb)) == std::cmp::Ordering::Equal;
+            // the whole comparison surface, Index, max_value, Default, iter / from_iter / into_iter
+            let idx = case.get("idx").map(usize_of).unwrap_or(0);
+            let at = std::panic::catch_unwind(std::panic::AssertUnwindSafe(|| ca[idx]));
+            let max = InsertionCost::max_value();
+            let def = InsertionCost::default();
+            let pc = ca.partial_cmp(&cb).map(ord_of).unwrap_or(2);
+            let round: InsertionCost = ca.iter().collect();
+            let round2: Vec<Value> = round.clone().into_iter().map(bits_of).collect();
+            let sel = BestResultSelector::default();
+            let api = json!([
+                [cmp, b2i(ca == cb), b2i(ca != cb), pc, b2i(ca < cb), b2i(ca <= cb), b2i(ca > cb), b2i(ca >= cb)],
+                at.map(|x| vec![bits_of(x)]).unwrap_or_default(),
+                [ord_of(ca.cmp(max)), ord_of(ca.cmp(&def)), ord_of(def.cmp(max))],
+                round.iter().map(bits_of).collect::<Vec<_>>(),
+                max.iter().map(bits_of).collect::<Vec<_>>(),
+                def.iter().map(bits_of).collect::<Vec<_>>()
+            ]);
+            let select = [b2i(sel.select_cost(&ca, &cb).is_left()), b2i(sel.select_cost(&ca, max).is_left())];
+            // + and - on every bit pattern (NaN results canonical), by reference and by value
+            let arith = json!([cvec(&(&ca + &cb)), cvec(&(&ca - &cb)), cvec(&(&(&ca + &cb) - &cb)), cvec(&(&(&ca - &cb) + &cb))]);
+            let owned = json!([cvec(&(ca.clone() + &cb)), cvec(&(ca.clone() - &cb)), cvec(&(ca.clone() + cb.clone())), cvec(&(ca.clone() - cb.clone())),
+                               cvec(&(&ca + cb.clone())), cvec(&(&ca - cb.clone()))]);
+            // Default is the neutral element: x + default, x - default, default + x, default - x
+            let ident = json!([cvec(&(&ca + &def)), cvec(&(&ca - &def)), cvec(&(&def + &ca)), cvec(&(&def - &ca))]);
             json!({"cmp": cmp, "eq": eq, "add": add, "sub": sub, "addsub": addsub, "addsub_cmp": addsub_cmp,
-                   "subadd": subadd, "subadd_cmp": subadd_cmp, "owned_same": owned_same})
+                   "subadd": subadd, "subadd_cmp": subadd_cmp, "owned_same": owned_same, "ident": ident,
+                   "api": api, "into_iter": round2, "select": select, "arith": arith, "owned": owned})
         }
         "icost3" => {
             // law oracle on the implementation: transitivity on a triple
@@ -247,9 +348,22 @@ pub fn run_case(case: &Value) -> Value {
                 let b = empty_ctx(p, f64s_of(&case["b"]));
                 let obs: Vec<Value> =
                     case["paths"].as_array().unwrap().iter().flat_map(|path| observe(&follow(&gc, path), &a, &b)).collect();
-                json!({"obs": obs})
+                let e = case.get("e").map(f64s_of).unwrap_or_default();
+                let est: Vec<Value> =
+                    case["paths"].as_array().unwrap().iter().map(|path| estimate_row(&follow(&gc, path), p, &e)).collect();
+                json!({"obs": obs, "est": est})
             }),
         },
+        "choose" => PROBLEM.with(|p| {
+            // InsertionResult::choose_best_result folded over candidate results (accumulated result on the left), directly and
+            // through BestResultSelector::select_insertion
+            let ctx = empty_ctx(p, vec![]);
+            let sel = BestResultSelector::default();
+            let rs = case["rs"].as_array().unwrap();
+            let direct = rs.iter().fold(ires_of(p, &case["init"]), |acc, r| InsertionResult::choose_best_result(acc, ires_of(p, r)));
+            let via = rs.iter().fold(ires_of(p, &case["init"]), |acc, r| sel.select_insertion(&ctx, acc, ires_of(p, r)));
+            json!({"chosen": ires_z(&direct), "via_selector": ires_z(&via)})
+        }),
         "dominance" => {
             // orders: array of -1/0/1
             let orders = i64s_of(&case["orders"]);
